@@ -352,7 +352,11 @@ func (g *mgen) prepareStruct(r *StructRep) {
 			r.fields = append(r.fields, fieldRep{f.Name(), "ref", gty{kind: "ref"}})
 		case "":
 			if f.Embedded() {
-				failf("%s: embedded field %s is outside the subset (ignore it)", r.Type, f.Name())
+				// an embedded (pointer to a) REPRESENTED struct is an ordinary field named after the
+				// type; promoted fields / methods are resolved through it (promotedSteps)
+				if et, ok := g.tryGtype(f.Type()); !ok || et.kind != "rec" {
+					failf("%s: embedded field %s is outside the subset (ignore it)", r.Type, f.Name())
+				}
 			}
 			r.fields = append(r.fields, fieldRep{f.Name(), "", g.gtype(f.Type(), r.Type+"."+f.Name())})
 		default:
@@ -364,6 +368,74 @@ func (g *mgen) prepareStruct(r *StructRep) {
 			failf("%s has no field %s", r.Type, k)
 		}
 	}
+}
+
+// tryGtype: gtype without failing
+func (g *mgen) tryGtype(tp types.Type) (res gty, ok bool) {
+	defer func() {
+		if r := recover(); r != nil {
+			if _, isf := r.(failure); isf {
+				ok = false
+				return
+			}
+			panic(r)
+		}
+	}()
+	return g.gtype(tp, ""), true
+}
+
+// promotedSteps: the field steps of a selection x.f whose field f is promoted through embedded
+// structs (sel.Index() = [i0, ..., ik]): every struct on the way must be represented.
+func (c *mctx) promotedSteps(x *ast.SelectorExpr, sel *types.Selection) []pathStep {
+	bt := c.tyOf(x.X)
+	if bt.kind != "rec" {
+		failf("%s: field of %s", c.pos(x), bt.kind)
+	}
+	rec := bt.rec
+	var steps []pathStep
+	idx := sel.Index()
+	for n, i := range idx {
+		if i >= rec.st.NumFields() {
+			failf("%s: promoted field %q is outside the subset", c.pos(x), c.src(x))
+		}
+		gf := rec.st.Field(i)
+		f := rec.field(gf.Name())
+		if f == nil {
+			failf("%s: field %s.%s is not represented", c.pos(x), rec.Type, gf.Name())
+		}
+		steps = append(steps, pathStep{rec, f})
+		if n < len(idx)-1 {
+			if f.ty.kind != "rec" {
+				failf("%s: promoted field %q is outside the subset", c.pos(x), c.src(x))
+			}
+			rec = f.ty.rec
+		}
+	}
+	return steps
+}
+
+// promotedRecv: the receiver of a call x.m() whose method m is promoted through embedded
+// structs: the Gallina term of the embedded object (all index steps but the last are fields).
+func (c *mctx) promotedRecv(x *ast.SelectorExpr, sel *types.Selection) string {
+	bt := c.tyOf(x.X)
+	if bt.kind != "rec" {
+		failf("%s: call of promoted method %q is outside the subset", c.pos(x), c.src(x))
+	}
+	rec := bt.rec
+	s := c.expr(x.X)
+	idx := sel.Index()
+	for _, i := range idx[:len(idx)-1] {
+		if i >= rec.st.NumFields() {
+			failf("%s: call of promoted method %q is outside the subset", c.pos(x), c.src(x))
+		}
+		f := rec.field(rec.st.Field(i).Name())
+		if f == nil || f.ty.kind != "rec" {
+			failf("%s: call of promoted method %q: embedded field %s.%s is not represented", c.pos(x), c.src(x), rec.Type, rec.st.Field(i).Name())
+		}
+		s = fmt.Sprintf("(%s_%s %s)", rec.name, f.name, s)
+		rec = f.ty.rec
+	}
+	return s
 }
 
 func (r *StructRep) field(name string) *fieldRep {
@@ -703,6 +775,10 @@ func (c *mctx) tyOf(e ast.Expr) gty {
 					return ref
 				}
 			}
+		} else if ok && sel.Kind() == types.FieldVal {
+			if st := c.promotedSteps(x, sel); st[len(st)-1].field.kind == "ref" {
+				return ref
+			}
 		}
 	case *ast.SliceExpr:
 		if c.tyOf(x.X).kind == "ref" {
@@ -933,7 +1009,7 @@ func (c *mctx) path(e ast.Expr) (string, []pathStep, bool) {
 			return "", nil, false
 		}
 		if len(sel.Index()) != 1 {
-			failf("%s: promoted field %q is outside the subset", c.pos(e), c.src(e))
+			return root, append(steps, c.promotedSteps(x, sel)...), true
 		}
 		bt := c.tyOf(x.X)
 		if bt.kind != "rec" {
@@ -1386,6 +1462,26 @@ func (c *mctx) callN(x *ast.CallExpr) []string {
 			return []string{v}
 		}
 		if n, ok := bePuts[name]; ok {
+			if se, isSl := x.Args[0].(*ast.SliceExpr); isSl && !se.Slice3 && c.tyOf(x.Args[0]).kind == "bytes" {
+				// binary.BigEndian.PutUintN(P[lo:hi], v) with P a []byte field path held by value: the
+				// fresh slice aliases P's array, so the call overwrites P in place (GoSem.bs_put)
+				if root, steps, ok := c.path(se.X); ok && len(steps) > 0 {
+					b := c.expr(se.X)
+					lo := "0"
+					if se.Low != nil {
+						lo = c.expr(se.Low)
+					}
+					hi := "(bs_len " + b + ")"
+					if se.High != nil {
+						hi = c.expr(se.High)
+					}
+					v := c.expr(x.Args[1])
+					t := c.fresh()
+					c.binds = append(c.binds, bind{pat: t, rhs: fmt.Sprintf("bs_put %s %s %s %d %s", b, lo, hi, n, v)})
+					c.binds = append(c.binds, bind{pat: mIdent(root), rhs: pathSet(mIdent(root), steps, t), let: true})
+					return nil
+				}
+			}
 			if c.tyOf(x.Args[0]).kind != "ref" {
 				failf("%s: %s into a %s", c.pos(e), name, c.tyOf(x.Args[0]).kind)
 			}
@@ -1409,6 +1505,7 @@ func (c *mctx) callN(x *ast.CallExpr) []string {
 	// resolved callee
 	var fn *types.Func
 	var recvExpr ast.Expr
+	promotedRecv := ""
 	switch f := x.Fun.(type) {
 	case *ast.Ident:
 		fn, _ = c.info.Uses[f].(*types.Func)
@@ -1417,7 +1514,7 @@ func (c *mctx) callN(x *ast.CallExpr) []string {
 		if fn != nil && fn.Type().(*types.Signature).Recv() != nil {
 			recvExpr = f.X
 			if sel, ok := c.info.Selections[f]; ok && len(sel.Index()) != 1 {
-				failf("%s: call of promoted method %q is outside the subset", c.pos(e), c.src(e))
+				promotedRecv = c.promotedRecv(f, sel)
 			}
 		}
 	}
@@ -1446,7 +1543,9 @@ func (c *mctx) callN(x *ast.CallExpr) []string {
 		mem, _ := c.memOwner(e)
 		args = append(args, mem)
 	}
-	if recvExpr != nil {
+	if promotedRecv != "" {
+		args = append(args, promotedRecv)
+	} else if recvExpr != nil {
 		args = append(args, c.expr(recvExpr))
 	}
 	sigc := fn.Type().(*types.Signature)
@@ -1476,6 +1575,9 @@ func (c *mctx) callN(x *ast.CallExpr) []string {
 	for _, m := range em.muts {
 		var ae ast.Expr
 		if m == "recv" {
+			if promotedRecv != "" {
+				failf("%s: promoted method %s mutates its receiver: outside the subset", c.pos(e), key)
+			}
 			ae = recvExpr
 		} else {
 			var idx int
